@@ -32,9 +32,15 @@ def limit_fn(F):
     return c[0]
 
 
+def FRAME_CTORS(F):
+    """inherent constructors of Frame from the wire parts (kept as calls next to the TryFrom impl)"""
+    return [p_ for p_, b_ in F.bodies.items() if p_.startswith("selium_protocol::frame::Frame::") and "{closure" not in p_ and b_.nargs == 2 and
+            b_.local_ty(1) == "u8" and "BytesMut" in b_.local_ty(2)]
+
+
 def dec_keep(F):
     lf = limit_fn(F)
-    return ((lf.path,) if lf is not None and "codec::MessageCodec" not in lf.path else ()) + (TRY_FROM,)
+    return ((lf.path,) if lf is not None and "codec::MessageCodec" not in lf.path else ()) + (TRY_FROM,) + tuple(FRAME_CTORS(F))
 VARIANTS = ["RegisterPublisher", "RegisterSubscriber", "RegisterReplier", "RegisterRequestor",
             "Message", "BatchMessage", "Error", "Ok"]
 CONSUMERS = {"bytes::buf::buf_impl::Buf::advance", "bytes::buf::buf_impl::Buf::get_u8", "bytes::bytes_mut::BytesMut::split_to",
@@ -417,7 +423,7 @@ def d3(ctx, F):
 
 def d4(ctx, F):
     # (the limit helper is looked through as well here: a validated-length newtype must not hide the length from the completeness test)
-    dec = F.inlined(F.one_body(r"^<selium_protocol::codec::MessageCodec as tokio_util::codec::decoder::Decoder>::decode$"), keep=(TRY_FROM,))
+    dec = F.inlined(F.one_body(r"^<selium_protocol::codec::MessageCodec as tokio_util::codec::decoder::Decoder>::decode$"), keep=(TRY_FROM,) + tuple(FRAME_CTORS(F)))
     consumers = [c for c in dec.calls() if is_consumer(c)]
     ctx.floor("C05.D4.consumers", len(consumers), 3)
     # blocks that build Ok(None)
@@ -493,10 +499,17 @@ def d4(ctx, F):
                   "prefix, then type byte, then payload", adv[0].span)
         # the type byte feeds try_from together with the payload
         tf = [c for c in dec.calls() if "TryFrom" in c.full and "try_from" in c.callee]
+        if not tf:
+            # (an inherent constructor such as Frame::from_wire(type, bytes) that the TryFrom impl delegates to)
+            tf = [c for c in dec.calls() if (c.t.get("resolved") or c.callee).startswith("selium_protocol::frame::Frame::") and len(c.args) == 2 and
+                  flow.root_local(dec, c.args[0]) == g8[0].dest["l"] and flow.root_local(dec, c.args[1]) == st[0].dest["l"]]
         if ctx.check(len(tf) == 1, "C05.D4.exact-consumption", "decode:try_from", "decoded bytes are handed to Frame::try_from once", dec.span):
-            r = flow.root(dec, tf[0].args[0])
-            okk = r[0] == "rv" and r[1]["k"] == "agg" and len(r[1]["ops"]) == 2 and \
-                flow.root_local(dec, r[1]["ops"][0]) == g8[0].dest["l"] and flow.root_local(dec, r[1]["ops"][1]) == st[0].dest["l"]
+            if len(tf[0].args) == 2:
+                okk = flow.root_local(dec, tf[0].args[0]) == g8[0].dest["l"] and flow.root_local(dec, tf[0].args[1]) == st[0].dest["l"]
+            else:
+                r = flow.root(dec, tf[0].args[0])
+                okk = r[0] == "rv" and r[1]["k"] == "agg" and len(r[1]["ops"]) == 2 and \
+                    flow.root_local(dec, r[1]["ops"][0]) == g8[0].dest["l"] and flow.root_local(dec, r[1]["ops"][1]) == st[0].dest["l"]
             ctx.check(okk, "C05.D4.exact-consumption", "decode:try_from-args", "Frame::try_from receives (type byte read, payload split off)", tf[0].span)
 
 
